@@ -714,41 +714,93 @@ func (c *Ctx) headersLinked() {
 	hdrNamed := func() *types.Named { return c.P.Named("headerfs", "BlockHeader") }
 	bhsWrite := func() *types.Func { return c.method("headerfs", "BlockHeaderStore", "WriteHeaders") }
 	fn := c.fn(fnHandleHeaders)
-	ahc := c.funcObj("neutrino", "areHeadersConnected")
-	calls := find(fn, callTo(ahc))
 	roll := c.method("neutrino", "blockManager", "rollBackToHeight")
 	effects := find(fn, anyOf(appendsOf(hdrNamed()), callTo(bhsWrite()), callTo(roll)))
-	c.guarded(fn, boolIs("areHeadersConnected(msg.Headers)", calls, 0, true), 1, "batch append / WriteHeaders / rollBackToHeight", effects, 4, gDominate)
-
-	f2 := c.fn("neutrino.areHeadersConnected")
 	prevBlock := c.field(pWire, "BlockHeader", "PrevBlock")
-	for _, x := range find(f2, binops(eqOps, loadsField(prevBlock), anyVal)) {
-		c.fullRange(f2, ir.LoopHeaderOf(x.Block()), "the link-checking loop", func(v ssa.Value) bool { return v == ssa.Value(f2.Params[0]) }, 0, boolSuccess)
+	msgHeaders := c.field(pWire, "MsgHeaders", "Headers")
+
+	// the link check lives in areHeadersConnected or, when that helper was
+	// folded into the handler, in the handler itself
+	f2 := c.P.Func("neutrino.areHeadersConnected")
+	folded := f2 == nil
+	isSlice := func(v ssa.Value) bool { return v == ssa.Value(f2.Params[0]) }
+	if folded {
+		f2 = fn
+		isSlice = func(v ssa.Value) bool { return loadsField(msgHeaders)(v) }
+	} else {
+		c.R.Funcs[c.nm(f2)] = true
+		calls := find(fn, callTo(c.funcObj("neutrino", "areHeadersConnected")))
+		c.guarded(fn, boolIs("areHeadersConnected(msg.Headers)", calls, 0, true), 1, "batch append / WriteHeaders / rollBackToHeight", effects, 4, gDominate)
 	}
 	cmps := find(f2, binops(eqOps, loadsField(prevBlock), anyVal))
-	var retTrue []ssa.Instruction
-	for _, in := range find(f2, isExit) {
-		r := in.(*ssa.Return)
-		if b, ok := ir.ConstBool(ir.RetVal(r, 0)); !ok || b {
-			retTrue = append(retTrue, in)
+	gLink := equalIs("blockHeader.PrevBlock vs lastHeader", cmps, true)
+	if folded && len(cmps) == 0 {
+		c.fail(c.nm(fn)+" | headers of a message are linked to each other", c.P.Pos(fn.Pos()), "neither areHeadersConnected nor a PrevBlock comparison over msg.Headers exists: the message's headers are not checked for being connected before they are used")
+		return
+	}
+	failExit := func(e ir.Edge) bool {
+		for _, st := range gLink.sites {
+			o := st.br.Other()
+			if e == o || ir.EdgeDominates(f2, o, e.From) {
+				return true
+			}
+		}
+		return false
+	}
+	for _, x := range cmps {
+		if folded {
+			c.fullRange(f2, ir.LoopHeaderOf(x.Block()), "the link-checking loop", isSlice, 0, func(*ssa.Return) bool { return true }, failExit)
+		} else {
+			c.fullRange(f2, ir.LoopHeaderOf(x.Block()), "the link-checking loop", isSlice, 0, boolSuccess)
 		}
 	}
-	c.guarded(f2, equalIs("blockHeader.PrevBlock vs lastHeader", cmps, true), 1, "return true", retTrue, 1, gFailEdge)
+	if folded {
+		// a mismatch never reaches a store write, rollback or batch append, and
+		// all of them lie behind the completed loop
+		c.guarded(fn, gLink, 1, "batch append / WriteHeaders / rollBackToHeight", effects, 4, gFailEdge)
+		okDom := len(cmps) > 0
+		for _, x := range cmps {
+			h := ir.LoopHeaderOf(x.Block())
+			for _, e := range effects {
+				if h == nil || !h.Dominates(e.Block()) || ir.LoopBlocks(h)[e.Block()] {
+					okDom = false
+				}
+			}
+		}
+		c.verdict(okDom, c.nm(fn)+" | the link-checking loop is completed before any store write, rollback or batch append", c.P.Pos(fn.Pos()), "loop dominates the effects and does not contain them", "a store write, rollback or batch append can happen before every header of the message was link-checked", c.ats(cmps)...)
+	} else {
+		var retTrue []ssa.Instruction
+		for _, in := range find(f2, isExit) {
+			r := in.(*ssa.Return)
+			if b, ok := ir.ConstBool(ir.RetVal(r, 0)); !ok || b {
+				retTrue = append(retTrue, in)
+			}
+		}
+		c.guarded(f2, gLink, 1, "return true", retTrue, 1, gFailEdge)
+	}
 	// every header of the message is linked to its predecessor: from each
 	// element of the slice the PrevBlock comparison is reached within the
 	// iteration; the only exemption is the very first header (lastHeader is
 	// still the zero hash)
 	var starts []start
+	loopOf := map[*ssa.BasicBlock]bool{}
+	for _, x := range cmps {
+		if h := ir.LoopHeaderOf(x.Block()); h != nil {
+			for b := range ir.LoopBlocks(h) {
+				loopOf[b] = true
+			}
+		}
+	}
 	ir.Instrs(f2, func(in ssa.Instruction) {
 		ia, ok := in.(*ssa.IndexAddr)
-		if ok && ir.Strip(ia.X) == ssa.Value(f2.Params[0]) {
+		if ok && isSlice(ir.Strip(ia.X)) && loopOf[in.Block()] {
 			starts = append(starts, afterInstr(c, in))
 		}
 	})
 	firstCut := ir.Cut{}
 	ir.Instrs(f2, func(in ssa.Instruction) {
 		b, ok := in.(*ssa.BinOp)
-		if !ok || (b.Op != token.EQL && b.Op != token.NEQ) || loadsField(prevBlock)(b.X) || loadsField(prevBlock)(b.Y) {
+		if !ok || !loopOf[in.Block()] || (b.Op != token.EQL && b.Op != token.NEQ) || loadsField(prevBlock)(b.X) || loadsField(prevBlock)(b.Y) {
 			return
 		}
 		// comparison of two hash values neither of which is a PrevBlock:
@@ -761,13 +813,5 @@ func (c *Ctx) headersLinked() {
 			firstCut[br.Edge()] = true
 		}
 	})
-	isCmp := func(in ssa.Instruction) bool {
-		for _, x := range cmps {
-			if x == in {
-				return true
-			}
-		}
-		return false
-	}
-	c.mustFollowIter(f2, "each header of the message", starts, isCmp, "blockHeader.PrevBlock != lastHeader comparison", firstCut, 1)
+	c.mustFollowIter(f2, "each header of the message", starts, oneOf(cmps), "blockHeader.PrevBlock != lastHeader comparison", firstCut, 1)
 }
